@@ -45,17 +45,18 @@ def work_shape(shard):
     made = []
     for seed in seeds:
         for (w, l) in sizes:
-            for mr in ((1, 2, 6) if (seed % 50 or (w, l) != (2, 2)) else (1, 2, 6, 1023, 5000)):      # very large maximum rewards on a few calls
+            for mr in ((1, 2, 6) if (seed % 50 or (w, l) != (2, 2)) else (1, 2, 6, 1023, 5000, 10 ** 17, 2 ** 64)):      # very large maximum rewards on a few calls
                 for p in LOOSE_PROBS:
                     for fd in (False, True):
                         try:
                             b = G.gen_rnd_board(seed, l, w, p, mr, fd)
                             why = shape_findings(b, l, w, mr, fd)
+                            exc = None
                         except Exception as e:               # noqa: BLE001
-                            b, why = None, "exception %r" % (e,)
+                            b, why, exc = None, "exception %r" % (e,), type(e).__name__
                         out["calls"] += 1
                         if (w, l) in ((1, 1), (2, 2), (3, 2), (1, 4)) and seed % 4 == 0:
-                            made.append(([seed, l, w, p, mr, fd], _digest(b) if b is not None else "exception"))
+                            made.append(([seed, l, w, p, mr, fd], _digest(b) if b is not None else "exception " + str(exc)))
                         if b is not None and why is None:
                             key = repr(p)
                             out["loose"][key] = out["loose"].get(key, 0) + sum(sum(r) for r in b[2])
@@ -329,6 +330,45 @@ def work_entry(shard):
     return out
 
 
+STALE_PAIRS = [  # two accepted parameter sets that are written to the SAME file name (names carry whole percentages only)
+    (dict(seed=0, width=5, length=5, rb=0.1, lb=0.1, tb=0.1, lt=0.296, max_reward=6, force_down=False),
+     dict(seed=0, width=5, length=5, rb=0.1, lb=0.1, tb=0.1, lt=0.304, max_reward=6, force_down=False)),
+    (dict(seed=3, width=2, length=2, rb=0.1, lb=0.05, tb=0.25, lt=0.3, max_reward=6, force_down=False),
+     dict(seed=3, width=2, length=2, rb=0.104, lb=0.05, tb=0.25, lt=0.3, max_reward=6, force_down=False)),
+]
+
+
+def stale_file_findings():
+    """environment: a file of the same name left behind by an earlier run in the same directory; the second run's file must hold the
+    games of the second parameter set"""
+    from .. import roborta as RB
+    from ..repo import conditionalrewards as CR
+    out, n = [], 0
+    for first, second in STALE_PAIRS:
+        with gen.Scratch() as sc:
+            e1 = gen.run_main(**first)
+            e2 = gen.run_main(**second)
+            n += 2
+            files = sc.files()
+            why = None
+            if e1 is not None or e2 is not None or len(files) != 1:
+                why = "calls raised %r / %r and left %r" % (e1, e2, files)
+            else:
+                d = CR.read_dict_from_file(os.path.join("inputs", files[0]))
+        if why is None:
+            moves, rew, loose = G.gen_rnd_board(second["seed"], second["length"], second["width"], second["lt"], second["max_reward"], second["force_down"])
+            for variant, key in (("A", "game_a"), ("B", "game_b"), ("C", "game_c")):
+                gg = RB.game_graph(d.get(key)) if isinstance(d, dict) and key in d else None
+                i2, gm = RB.model(variant, moves, rew, loose, second["rb"], second["lb"], second["tb"])
+                if gg is None or not RB.bisimilar(gg[0], gg[1], i2, gm)[0]:
+                    why = "%s in the file is not the game of the second parameter set" % key
+                    break
+        if why:
+            out.append(mk("C15/stale-file-kept", {"leg": "stale", "first": first, "second": second}, why, "the second set's games",
+                          "running the generator with %r and then with %r in the same directory: %s" % (first, second, why)))
+    return out, n
+
+
 def main_refusals():
     """through main(): every single and double deviation from a valid parameter set must raise ValueError and write nothing"""
     base = dict(seed=0, width=2, length=2, rb=0.1, lb=0.1, tb=0.1, lt=0.3, max_reward=6)
@@ -407,12 +447,15 @@ def run(ctx):
                                  "gen_rnd_board%r differs in a second process with another hash seed" % (PARAM_SETS[i],)))
     mf, nmain = main_refusals()
     violations.extend(mf)
+    sf, nstale = stale_file_findings()
+    violations.extend(sf)
+    nmain += nstale
     sanity = {}
     for k, n in tot.get("tiles", {}).items():
         sanity[k] = round(tot["loose"].get(k, 0) / float(n), 4)
     if tot.get("refused", 0) < 1000 or tot.get("accepted", 0) < 16:
         if not violations:
-            raise par.HarnessError("C15 vacuity guard: refusal leg %r/%r" % (tot.get("refused"), tot.get("accepted")))
+            raise par.GuardError("C15 vacuity guard: refusal leg %r/%r" % (tot.get("refused"), tot.get("accepted")))
     cov = {"states": nstates + tot["calls"], "transitions": ntrans + tot["calls"] + nmain,
            "traces_validated_against_impl": tot["calls"] + ntrans + nmain,
            "evaluations": tot["calls"] + ntrans + nmain, "distinct_nontrivial": tot.get("refused", 0) + tot.get("boundary_answers", 0),
@@ -454,6 +497,9 @@ def replay(case):
         b = G.gen_rnd_board(i["seed"], i["length"], i["width"], i["prob_loose_tile"], i["max_reward"], i["force_down"])
         why = shape_findings(b, i["length"], i["width"], i["max_reward"], i["force_down"])
         return ("after earlier calls %r: %s" % (i.get("earlier_calls_in_this_process"), why)) if why else None
+    if leg == "stale":
+        f, _ = stale_file_findings()
+        return f[0]["explanation"] if f else None
     if leg == "entry":
         out = work_entry([i["params"]])
         return out["violations"][0]["explanation"] if out["violations"] else None
@@ -462,8 +508,8 @@ def replay(case):
         for c in i["calls"]:
             try:
                 made.append((c, _digest(G.gen_rnd_board(*c))))
-            except Exception:                                # noqa: BLE001
-                made.append((c, "exception"))
+            except Exception as e:                           # noqa: BLE001
+                made.append((c, "exception " + type(e).__name__))
         diff = order_differential(made)
         return ("%d of %d calls give another board in the opposite order" % (len(diff), len(made))) if diff else None
     if leg == "reproducibility":
